@@ -25,6 +25,7 @@ import (
 
 var c43ErrScriptEnd = errors.New("c43: script end")
 var c43ErrSubmit = errors.New("c43: scripted submission failure")
+var c43ErrHeader = errors.New("c43: scripted transient header request failure")
 
 type c43Event struct {
 	Kind    string `json:"k"`             // tip | epoch | prooflen | header | submit | ready | auth | authRefund
@@ -53,6 +54,7 @@ type c43Script struct {
 	Auth    []bool   `json:"auth"`   // IsAuthorized for the i-th run
 	AuthR   []bool   `json:"authR"`  // IsAuthorizedForRefund for the i-th run
 	MaxTips int      `json:"maxTip"` // the script ends at this tip poll (context cancelled + error)
+	HdrFail []int    `json:"hdrFail,omitempty"` // ordinals (0-based) of requests for an existing header that fail with a transient error
 }
 
 type c43World struct {
@@ -76,6 +78,7 @@ type c43World struct {
 	readyPolls   int
 	cancel       context.CancelFunc
 	ended        bool
+	hdrCalls     int // requests for existing headers so far
 }
 
 func c43Header(h uint) *bitcoin.BlockHeader {
@@ -132,6 +135,14 @@ func (b *c43Btc) GetBlockHeader(h uint) (*bitcoin.BlockHeader, error) {
 	if h > w.height {
 		w.ev = append(w.ev, c43Event{Kind: "header", Val: uint64(h), OK: false})
 		return nil, fmt.Errorf("block header at height %v does not exist", h)
+	}
+	k := w.hdrCalls
+	w.hdrCalls++
+	for _, f := range w.sc.HdrFail {
+		if f == k {
+			w.ev = append(w.ev, c43Event{Kind: "header", Val: uint64(h), OK: false, Method: "fault"})
+			return nil, c43ErrHeader
+		}
 	}
 	w.ev = append(w.ev, c43Event{Kind: "header", Val: uint64(h), OK: true})
 	return c43Header(h), nil
@@ -303,8 +314,13 @@ func c43CheckLog(ev []c43Event, proxy bool, cancelled bool) (problems []c43Probl
 		var l0 uint64
 		haveEpoch, haveL := false, false
 		var subs []int
+		hdrFault := false // a request for an existing header failed during this pass
 		for j < len(ev) && ev[j].Kind != "tip" && ev[j].Kind != "ready" {
 			switch ev[j].Kind {
+			case "header":
+				if !ev[j].OK && ev[j].Method == "fault" {
+					hdrFault = true
+				}
 			case "epoch":
 				if !haveEpoch {
 					epoch0, haveEpoch = ev[j].Val, true
@@ -333,7 +349,9 @@ func c43CheckLog(ev []c43Event, proxy bool, cancelled bool) (problems []c43Probl
 			}
 			switch {
 			case due && len(subs) == 0:
-				if !(lastTick && cancelled) {
+				// giving up the pass after a failed header request is always
+				// acceptable (the control loop restarts and tries again)
+				if !(lastTick && cancelled) && !hdrFault {
 					add("submit:missing", fmt.Sprintf("chain tip %d >= %d (epoch %d, proof length %d) but nothing was submitted", tip, last, epoch0+1, l0))
 				}
 			case !due && len(subs) > 0:
@@ -708,4 +726,117 @@ func TestVerif_C43_Loops(t *testing.T) {
 			r.Sample(map[string]interface{}{"script": sc, "log_prefix": short, "runs": runErrs})
 		}
 	})
+}
+
+// ---------------------------------------------------------------------------
+// Part 3: transient failures of single header requests inside the proof range.
+// ---------------------------------------------------------------------------
+
+func TestVerif_C43_HeaderFaults(t *testing.T) {
+	r := verifkit.Start(t, "C43", "header-faults")
+	defer r.Finish()
+	r.SetRule("a due proof (chain tip at or beyond the last needed header) while one or two requests for existing headers fail with an error: every position of the 2L-header range for proof lengths 1..6 (one fault), PRNG pairs of positions (two faults), both submission paths; even cases run one real proveNextEpoch pass, odd cases the real control loop until a fixed number of tip polls. Giving up the pass with an error is accepted; whatever is submitted - in the faulted pass or in a later one - must be exactly the headers (e+1)*2016-L .. (e+1)*2016+L-1 (the log oracle of the other parts). non-trivial = a header request failed inside the range")
+	base := c43Base()
+	type hc struct {
+		L     uint64
+		fails []int
+		proxy bool
+	}
+	var cases []hc
+	for L := uint64(1); L <= 6; L++ {
+		for k := 0; k < int(2*L); k++ {
+			cases = append(cases, hc{L, []int{k}, false}, hc{L, []int{k}, true})
+		}
+	}
+	nPairs := r.N(60, 2000)
+	for i := 0; i < nPairs; i++ {
+		rng := r.SubRand("hdr-pair", i)
+		L := uint64(1 + rng.Intn(10))
+		a := rng.Intn(int(2 * L))
+		b := a + 1 + rng.Intn(int(2*L)) // second fault may fall into the retry pass
+		cases = append(cases, hc{L, []int{a, b}, rng.Intn(2) == 0})
+	}
+	var faultedPasses, submittedAfterFault, gaveUp int64
+	var mu sync.Mutex
+	verifkit.Parallel(len(cases), 64, func(i int) {
+		c := cases[i]
+		rng := r.SubRand("hdr-case", i)
+		e := uint64(rng.Intn(300))
+		neh := (uint(e) + 1) * bitcoinDifficultyEpochLength
+		sc := c43Script{Height0: neh + uint(c.L) - 1 + uint(rng.Intn(3)), Epoch0: e, L: []uint64{c.L}, Proxy: c.proxy, HdrFail: c.fails}
+		loop := i%2 == 1
+		if loop {
+			sc.MaxTips = 6
+		}
+		desc := "hdrfault " + verifkit.JSON(sc)
+		w, m := c43NewWorld(sc, base)
+		ctx, cancel := context.WithCancel(context.Background())
+		defer cancel()
+		w.cancel = cancel
+		var proven bool
+		var err error
+		returned, panicked := r.Within(60*time.Second, "hdrfault:", desc, func() {
+			if loop {
+				m.startControlLoop(ctx)
+				return
+			}
+			proven, err = m.proveNextEpoch(ctx)
+		})
+		if panicked {
+			r.Case(desc, true)
+			return
+		}
+		if !returned {
+			cancel()
+			r.Inconclusive("did not return within the watchdog: " + desc)
+			return
+		}
+		w.mu.Lock()
+		ev := append([]c43Event(nil), w.ev...)
+		w.mu.Unlock()
+		problems, submitted, _ := c43CheckLog(ev, sc.Proxy, loop)
+		faults := 0
+		for _, x := range ev {
+			if x.Kind == "header" && x.Method == "fault" {
+				faults++
+			}
+		}
+		r.Case(desc, faults > 0)
+		for _, p := range problems {
+			r.Violation("hdrfault:"+p.fp, p.what, desc, ev)
+		}
+		mu.Lock()
+		if faults > 0 {
+			faultedPasses++
+		}
+		if submitted > 0 {
+			submittedAfterFault++
+		}
+		mu.Unlock()
+		if !loop {
+			// single pass: a submission in the faulted pass is judged by the log
+			// oracle above; without one the pass must report the failure
+			if submitted == 0 && faults > 0 {
+				mu.Lock()
+				gaveUp++
+				mu.Unlock()
+				if err == nil || proven {
+					r.Violation("hdrfault:failure-not-reported", fmt.Sprintf("a header request failed and nothing was submitted, but proveNextEpoch returned (%v, %v)", proven, err), desc, ev)
+				}
+			}
+		} else if faults > 0 && submitted == 0 {
+			// the control loop restarted at most len(fails) times within 6 tip
+			// polls; the epoch stays due, so a later pass has to submit
+			r.Violation("hdrfault:never-submitted-after-restart", "the control loop never submitted the due proof after the failed header requests were over", desc, ev)
+		}
+		if i%37 == 0 {
+			r.Sample(map[string]interface{}{"script": sc, "log": ev, "proven": proven, "err": fmt.Sprint(err)})
+		}
+	})
+	r.Count("cases_with_header_fault", faultedPasses)
+	r.Count("cases_with_submission", submittedAfterFault)
+	r.Count("single_passes_given_up", gaveUp)
+	if faultedPasses == 0 {
+		r.Inconclusive("no header request failed")
+	}
 }
